@@ -20,6 +20,10 @@ import json
 import math
 import os
 
+# the dense reference solves are tiny; a threaded BLAS only hurts on a loaded machine
+for _k in ("OMP_NUM_THREADS", "OPENBLAS_NUM_THREADS", "MKL_NUM_THREADS"):
+    os.environ.setdefault(_k, "1")
+
 import numpy as np
 
 import common
@@ -288,7 +292,10 @@ def job_resid(rng, name, nd, per, small):
     itmax = 10000
     lines = head_text(name, dims, smoothed, full, mins, 1)
     lines += load_text(dims, counts, sums)
-    lines += ["setdiv", "div d", "zero", "integrate %d %s s" % (itmax, fnum(tol)), "atimes s", "end"]
+    lines += ["setdiv", "div d", "zero", "integrate %d %s s" % (itmax, fnum(tol)), "atimes s"]
+    if small:
+        lines += ["multicol m"]
+    lines += ["end"]
     return dict(law="resid", name=name, dims=dims, tol=tol, itmax=itmax, smoothed=smoothed, full=full, mins=mins,
                 small=bool(small), density=density, text="\n".join(lines) + "\n")
 
@@ -324,10 +331,10 @@ def jobs_conv(rng, fam, nd, per, thorough):
             sums = G
         name = "%s_l%d" % (fam, lev)
         lines = head_text(name, dims, 0, 1, 0, 1)
-        lines += load_text(dims, counts, sums)
-        lines += ["setdiv", "zero", "integrate 40000 1e-11 s", "end"]
+        lines += ["loadbin @BIN@", "setdiv", "zero", "integrate 40000 1e-11 s", "end"]
+        blob = np.ascontiguousarray(counts, dtype="<i8").tobytes() + np.ascontiguousarray(sums, dtype="<f8").tobytes()
         jobs.append(dict(law="conv", name=name, fam=fam, level=lev, dims=dims, surf=surf, los=los, lengths=lengths,
-                         with_counts=with_counts, text="\n".join(lines) + "\n"))
+                         with_counts=with_counts, text="\n".join(lines) + "\n", blob=blob))
     return jobs
 
 
@@ -600,6 +607,25 @@ def eval_resid(job, events):
                     % (r_code, tol, errv, iters), None))
     else:
         res.append(("ok", "", "", ("resid", D, P, "own_operator:" + cls)))
+    mc = ev_by(events, "multicol", "m")
+    if mc is not None:
+        # what is written: values of the solution at the bin edges lower + i*width, 14 significant digits
+        xs, vs = parse_multicol(mc["text"], nd)
+        grids = np.meshgrid(*[dims[d][0] + dims[d][1] * np.arange(pnx[d]) for d in range(nd)], indexing="ij")
+        xexp = np.stack([g.reshape(-1) for g in grids], axis=1)
+        if len(vs) != A.size:
+            res.append(("viol", "resid:%s:%s:written:rows" % (D, P), "%d rows written for %d grid points" % (len(vs), A.size), None))
+        else:
+            span = max(abs(dims[d][0]) + dims[d][1] * pnx[d] for d in range(nd))
+            if np.max(np.abs(xs - xexp)) > 1e-12 * span:
+                res.append(("viol", "resid:%s:%s:written:coords" % (D, P),
+                            "written coordinates differ from the bin edges lower + i*width by %.3g"
+                            % float(np.max(np.abs(xs - xexp))), None))
+            elif np.max(np.abs(vs - A)) > 1e-13 * float(np.max(np.abs(A))) + 1e-300:
+                res.append(("viol", "resid:%s:%s:written:values" % (D, P),
+                            "written values differ from the solution by %.3g" % float(np.max(np.abs(vs - A))), None))
+            else:
+                res.append(("ok", "", "", ("resid", D, P, "written")))
     if all(per):
         A_ = A.reshape(pnx)
         r_np = float(np.linalg.norm(np_laplacian_periodic(A_, widths).reshape(-1) - div)) / bn
@@ -786,7 +812,13 @@ def run_chunk(c, flavour, chunk, idx, timeout):
     path = os.path.join(c.work, "%s_%04d.case" % (flavour, idx))
     with open(path, "w") as f:
         for j in chunk:
-            f.write(j["text"])
+            text = j["text"]
+            if j.get("blob") is not None:       # big arrays travel in binary next to the case file
+                bp = os.path.join(c.work, "%s_%s.bin" % (flavour, j["name"]))
+                with open(bp, "wb") as bf:
+                    bf.write(j["blob"])
+                text = text.replace("@BIN@", bp)
+            f.write(text)
     r = common.run_proc([exe, path], timeout=timeout, cwd=c.work)
     ev = common.parse_events(r["out"])
     by = {}
@@ -851,13 +883,13 @@ def record(c, flavour, job, tuples, path):
                 continue
             jf = os.path.join(c.work, "job_%s.json" % job["name"])
             with open(jf, "w") as f:
-                json.dump(dict(job=job, flavour=flavour), f)
+                json.dump(dict(job={k: v for k, v in job.items() if k != "blob"}, flavour=flavour), f)
             cf = os.path.join(c.work, "job_%s.case" % job["name"])
             with open(cf, "w") as f:
                 f.write(job["text"])
-            slim = {k: v for k, v in job.items() if k not in ("text", "stream", "surf", "pre_counts", "pre_sums")}
+            slim = {k: v for k, v in job.items() if k not in ("text", "stream", "surf", "pre_counts", "pre_sums", "blob")}
             c.violation(key, text, files=[jf, cf], payload=slim)
-            c.sample(dict(verdict="violation", key=key, case=job["name"], text=text[:200]), cap=8)
+            c.sample(dict(verdict="violation", key=key, case=job["name"], text=text[:200]), cap=40)
 
 
 def crash_tuple(job, fail):
@@ -871,6 +903,7 @@ def crash_tuple(job, fail):
 
 def evaluate_all(c, results):
     fams = {}
+    nsamp = {}
     for flavour, job, events, fail, path in results:
         c.count()
         c.bump("cases_" + job["law"])
@@ -887,9 +920,12 @@ def evaluate_all(c, results):
         record(c, flavour, job, tuples, path)
         if tuples and tuples[0][0] == "ok":
             d = job["dims"]
-            c.sample(dict(law=job["law"], case=job["name"], bins=[x[2] for x in d], widths=[x[1] for x in d],
-                          periodic=pat([x[3] for x in d]), verdict="ok",
-                          what=str(tuples[0][3])), cap=6 if job["law"] != "1d" else 2)
+            lawkey = job["law"] + (":abf_run" if job.get("e2e") else "")
+            nsamp[lawkey] = nsamp.get(lawkey, 0) + 1
+            if nsamp[lawkey] <= 2:
+                c.sample(dict(law=lawkey, case=job["name"], flavour=flavour, bins=[x[2] for x in d],
+                              widths=[x[1] for x in d], periodic=pat([x[3] for x in d]), verdict="held",
+                              what=[list(t[3]) for t in tuples if t[0] == "ok" and t[3]]), cap=40)
     for (flavour, fam), levels in sorted(fams.items()):
         levels.sort(key=lambda x: x[0]["level"])
         if len(levels) != 3:
@@ -898,8 +934,11 @@ def evaluate_all(c, results):
         tuples = eval_conv_family(levels)
         record(c, flavour, levels[2][0], tuples, None)
         if tuples[0][0] in ("ok", "observe"):
-            c.sample(dict(law="conv", case=fam, periodic=pat([x[3] for x in levels[0][0]["dims"]]), verdict="ok",
-                          what=tuples[0][2]), cap=10)
+            nsamp["conv"] = nsamp.get("conv", 0) + 1
+            if nsamp["conv"] <= 3 or tuples[0][0] == "observe":
+                c.sample(dict(law="conv", case=fam, periodic=pat([x[3] for x in levels[0][0]["dims"]]),
+                              verdict="held" if tuples[0][0] == "ok" else "held (rms); " + tuples[0][1],
+                              what=tuples[0][2]), cap=40)
 
 
 PATS2 = [(1, 1), (0, 0), (1, 0), (0, 1)]
